@@ -314,6 +314,45 @@ Theorem C17_blob_push_oneshot_once :
 Proof. exact blob_push_not_replayable. Qed.
 Print Assumptions C17_blob_push_oneshot_once.
 
+(* blob push / mount fallback with the token requests spelled out (the POST may fetch a token,
+   and so may the PUT when it does not inherit the POST's credentials): every PUT request
+   carries the blob as far as it is read; every token request of the push carries its form *)
+Theorem C17_blob_push_tok_bodies :
+  forall authc p cn bd sc tb tsc,
+    wf_body bd -> wf_body tb ->
+    let u := blob_push_tok authc p cn bd sc tb tsc in
+    bodies_ok tb tsc 0 (attempts (ak_token (uk_post u))) /\
+    match uk_put u with
+    | Some put =>
+      bodies_ok bd sc (length (authk_attempts (uk_post u))) (authk_attempts put) /\
+      bodies_ok tb tsc (length (attempts (ak_token (uk_post u)))) (attempts (ak_token put))
+    | None => True
+    end.
+Proof. exact blob_push_tok_bodies. Qed.
+Print Assumptions C17_blob_push_tok_bodies.
+
+Theorem C17_blob_push_tok_oneshot_once :
+  forall authc p cn bd sc tb tsc,
+    (forall st', rewind bd st' = RwNoGetBody \/ rewind bd st' = RwGetBodyErr) ->
+    match uk_put (blob_push_tok authc p cn bd sc tb tsc) with
+    | Some put => length (authk_attempts put) = 1%nat
+    | None => True
+    end.
+Proof. exact blob_push_tok_not_replayable. Qed.
+Print Assumptions C17_blob_push_tok_oneshot_once.
+
+Theorem C17_blob_push_tok_cancel :
+  forall authc p bd sc tb tsc tc dl,
+    let u := blob_push_tok authc p (Some (tc, dl)) bd sc tb tsc in
+    authk_cancel_post_at tc 0 (uk_res u) (uk_time u) (uk_post u) /\
+    uk_time u <= Z.max 0 tc /\
+    match uk_put u with
+    | Some put => exists t1, t1 <= Z.max 0 tc /\ authk_cancel_post_at tc t1 (uk_res u) (uk_time u) put
+    | None => True
+    end.
+Proof. exact blob_push_tok_cancel. Qed.
+Print Assumptions C17_blob_push_tok_cancel.
+
 (* a cross-repository mount the registry declines (202) falls back to the same POST/PUT
    protocol with a body read from an io.ReadCloser: the PUT is exactly one request *)
 Theorem C17_mount_fallback_once :
@@ -578,6 +617,17 @@ Example ex_token_refused :
                        (mkBody KNone []) [mkBeh (OStatus 403 [] 0%N) None 0] in
   ak_res a = RTokenResp 403 /\ ak_second a = [].
 Proof. vm_compute. split; reflexivity. Qed.
+
+(* blob push: the POST is challenged and its token request fails once; the PUT inherits the
+   credentials and is retried once *)
+Example ex_blob_push_tok :
+  let u := blob_push_tok true ex_policy None ex_body
+             [mkBeh (OStatus 401 [] 2%N) None 0; mkBeh (OStatus 202 [] 0%N) None 0;
+              mkBeh (OStatus 502 [] 0%N) None 0; mkBeh (OStatus 201 [] 0%N) None 0]
+             (mkBody KNone []) [mkBeh (OStatus 503 [] 0%N) None 0; mkBeh (OStatus 200 [] 0%N) None 0] in
+  uk_res u = RResp 201 0%N /\ length (attempts (ak_token (uk_post u))) = 2%nat /\
+  match uk_put u with Some put => map snd (authk_attempts put) = [b "manifest"; b "manifest"] | None => False end.
+Proof. vm_compute. repeat split; reflexivity. Qed.
 
 (* Retry-After: 2 within [100ns, 3s]: honoured *)
 Example ex_retry_after :
